@@ -9,12 +9,18 @@
                               returns, observation (0); a panic on the implementation side is
                               (2) and so shows up as a correspondence failure as well as a
                               direct-oracle failure.
+     (2 x<dec> x<bytes>)      a decoder entry point whose executable model lives in another
+                              property's Model file (imported read-only): observation is the
+                              outcome class (0) value / (1) error / (2) panic.
      (3 ...)                  a timing measurement; observation (0).
+     (4 op signed w a b)      one arithmetic form of Lib/GoSem.v (the forms the translator emits)
+                              against Go's own typed arithmetic; observation (0 value) / (2).
 
    The helper bodies are the ones regenerated from /repo by tools/repo2coq/gen_funcs.go. *)
 From Coq Require Import String.
 From Verif Require Import Lib.Base Lib.Sx Lib.GoSem.
 From Verif Require Import Gen.Gen_amf0 Gen.Gen_rtmp Gen.Gen_flv Gen.Gen_aac Gen.Gen_avc Gen.Gen_websocket.
+From Verif Require Model.Amf0 Model.Flv Model.Aac Model.Avc Model.RtmpPacket Model.JsonPlus.
 Open Scope Z_scope.
 
 Definition obs_Z (r : res Z) : sx :=
@@ -74,10 +80,13 @@ Definition helpers : list (string * helper) := [
   ("websocket_isValidReceivedCloseCode", H1 0 (fun v => obs_bool (websocket_isValidReceivedCloseCode v)))
 ]%string.
 
-Fixpoint find_helper (name : list N) (l : list (string * helper)) : option helper :=
+(* names as byte strings, converted once *)
+Definition helper_table : list (list N * helper) := map (fun nh => (string_bytes (fst nh), snd nh)) helpers.
+
+Fixpoint find_helper (name : list N) (l : list (list N * helper)) : option helper :=
   match l with
   | [] => None
-  | (n, h) :: t => if bytes_eqb name (string_bytes n) then Some h else find_helper name t
+  | (n, h) :: t => if bytes_eqb name n then Some h else find_helper name t
   end.
 
 Definition bytes_Z (b : list N) : list Z := map Z.of_N b.
@@ -91,13 +100,63 @@ Definition run_helper (h : helper) (args : list sx) : sx :=
   | _, _ => bad_case
   end.
 
+(* ---- decoders modelled elsewhere: outcome class only ---- *)
+Definition cls {A} (r : res A) : sx :=
+  match r with Ok _ => SL [SZ 0] | Err _ => SL [SZ 1] | Panic _ => s_panic end.
+
+(* the transaction table the rtmp harness registers before decoding: tid 1.0 -> connect,
+   2.0 -> createStream, 3.0 -> "other" (keys are the float64 bit patterns) *)
+Definition c07_tx : Verif.Model.RtmpPacket.tx :=
+  [(4607182418800017408, string_bytes "connect"); (4611686018427387904, string_bytes "createStream");
+   (4613937818241073152, string_bytes "other")]%N.
+
+Definition decoders : list (string * (bytes -> sx)) := [
+  (* NewProtocol(..).DecodeMessage(&Message{MessageType: b[0], Payload: b[1:]}) *)
+  ("rtmp.decode.dec", fun b => match b with
+                               | mt :: payload => cls (fst (Verif.Model.RtmpPacket.decode_message c07_tx mt payload))
+                               | [] => SL [SZ 1]
+                               end);
+  (* ioutil.ReadAll(NewJsonPlusReader(bytes.NewReader(b))) *)
+  ("json.strip.dec", fun b => cls (snd (Verif.Model.JsonPlus.strip b)));
+  (* Discovery(b) then a.UnmarshalBinary(b) *)
+  ("amf0.decode", fun b => cls (Verif.Model.Amf0.decode_fast b));
+  (* NewAudioPackager().Decode(b) / NewVideoPackager().Decode(b) *)
+  ("flv.audio.dec", fun b => cls (Verif.Model.Flv.audio_dec b));
+  ("flv.video.dec", fun b => cls (Verif.Model.Flv.video_dec b));
+  (* NewADTS().Decode(b) once; (&AudioSpecificConfig{}).UnmarshalBinary(b) *)
+  ("aac.adts.dec", fun b => cls (snd (Verif.Model.Aac.adts_decode Verif.Model.Aac.asc0 b)));
+  ("aac.asc.dec", fun b => cls (snd (Verif.Model.Aac.asc_unmarshal Verif.Model.Aac.asc0 b)));
+  (* NewNALU().UnmarshalBinary(b); NewAVCDecoderConfigurationRecord().UnmarshalBinary(b);
+     NewAVCSample(b[0]).UnmarshalBinary(b[1:]) *)
+  ("avc.nalu.dec", fun b => cls (Verif.Model.Avc.nalu_unmarshal b));
+  ("avc.record.dec", fun b => cls (snd (Verif.Model.Avc.rec_unmarshal Verif.Model.Avc.rec0 b)));
+  ("avc.sample.dec", fun b => match b with
+                              | l :: rest => cls (snd (Verif.Model.Avc.sample_unmarshal l [] rest))
+                              | [] => SL [SZ 1]
+                              end)
+]%string.
+
+Definition decoder_table : list (list N * (bytes -> sx)) := map (fun nf => (string_bytes (fst nf), snd nf)) decoders.
+
+Fixpoint find_decoder (name : list N) (l : list (list N * (bytes -> sx))) : option (bytes -> sx) :=
+  match l with
+  | [] => None
+  | (n, f) :: t => if bytes_eqb name n then Some f else find_decoder name t
+  end.
+
 Definition run_c07 (c : sx) : sx :=
   match c with
   | SL (SZ 1 :: SB name :: args) =>
-      match find_helper name helpers with
+      match find_helper name helper_table with
       | Some h => run_helper h args
       | None => bad_case
       end
+  | SL [SZ 2; SB name; SB b] =>
+      match find_decoder name decoder_table with
+      | Some f => f b
+      | None => bad_case
+      end
+  | SL [SZ 4; SZ op; SZ sg; SZ w; SZ a; SZ b] => obs_Z (go_binop op (Z.eqb sg 1) w a b)
   | SL (SZ 0 :: _) => s_ok []
   | SL (SZ 3 :: _) => s_ok []
   | _ => bad_case
